@@ -180,7 +180,12 @@ func main() {
 	driver := flag.String("driver", "", "path of the Lean driver executable (empty: skip correspondence)")
 	replay := flag.String("replay", "", "replay file (a violation record)")
 	facts := flag.String("facts", "", "write the facts table (registries, constants) as JSON to this file and exit")
+	dict := flag.String("dict", "", "dictionary.json written by tools/extract (literals of the current source)")
+	dictBase := flag.String("dict-base", "", "dictionary of the pinned tree (committed): literals not in it are drawn preferentially")
 	flag.Parse()
+	if *dict != "" {
+		loadDict(*dict, *dictBase)
+	}
 
 	if *facts != "" {
 		if err := writeFacts(*facts); err != nil {
